@@ -30,4 +30,12 @@ PROPS = {
         "assumptions": ["decimal results are compared by numeric value (trailing zeros are not observable)",
                         "`/` is accepted within 1e-16 of the exact quotient, as the property states; the model records the library's half-away rounding"],
     },
+    "C16": {
+        "fragments": ["functable"],
+        "oblig": ["C16_gen.v"],
+        "level_text": "Proof. General theorems (any table): VisitFunction accepts exactly when the name is in the table and the count within its bounds; unknown names are rejected; merging experimental functions never changes a base name (Props/C16.v). Finite theorems over the tables regenerated from table.go by go2v on every run (Oblig/C16_gen.v, vm_compute over the whole table): names unique, bounds well-formed, every implemented entry bound to the implementation of its own name, every N1 function the table implements carries exactly the specification's argument counts, placeholders are explicit. The remaining claim (an accepted call never fails with an arity complaint; placeholders fail with an error) quantifies over a finite space and is enumerated completely through Compile/Evaluate.",
+        "level_note": "Trusted: Coq kernel, go2v's reading of the table literals, harness + hook, check driver, the hand-typed N1 function list in coq/C16/Model.v. Modelled rather than verified: VisitFunction's lookup/bounds test (hand-written model, exhaustive correspondence).",
+        "explanation": "Tie A: baseTable/experimentalTable regenerated and the finite obligations re-proved. Tie B: every (name, argument count, option) compiled and, when accepted, evaluated; compile verdict compared with the model over the regenerated table.",
+        "assumptions": ["the N1 list and its argument counts are typed in by hand from the specification"],
+    },
 }
